@@ -171,11 +171,16 @@ def gen_tree(rng, kind='D', with_disp=False, maxdepth=3):
                 continue
             used.add(name)
             m = {'exp': _mark(rng, 0.6)}
-            if rng.random() < 0.12:
-                al = rng.choice(['al', 'a.b', 'x.y', 'al.ias'])
-                if al.replace('.', '_') not in used:
-                    used.add(al.replace('.', '_'))
-                    m['alias'] = [al]
+            r = rng.random()
+            if r < 0.14:
+                al = rng.choice(['al', 'a.b', 'x.y', 'al.ias', ['a.b'], ['al', 'x.y'], ['al.ias', 'b.c']])
+                names = [al] if isinstance(al, str) else al
+                if not any(a.replace('.', '_') in used for a in names):
+                    used.update(a.replace('.', '_') for a in names)
+                    m['alias'] = al
+                    m['xform'] = rng.choice(['kw', 'kw', 'pos', 'func'])
+            elif r < 0.2 and m['exp'] is True:
+                m['xform'] = 'call'
             nd['meth'].append([name, m])
         if rng.random() < 0.25:
             name = rng.choice(NAMES + ['index', 'default'])
@@ -257,7 +262,8 @@ def gen_path(rng, spec):
             pool = [(n, j) for n, j in nd['kids']] * 3 + [(n, None) for n, _ in nd['meth']] + \
                    [(n, None) for n, _ in nd['vals']]
             for n, m in nd['meth']:
-                for a in (m.get('alias') or []):
+                al = m.get('alias') or []
+                for a in ([al] if isinstance(al, str) else al):
                     pool.append((a, None))
             name, nxt = rng.choice(pool)
             segs.append(seg_variant(rng, name))
@@ -492,7 +498,7 @@ def tree_variants(spec):
             new['nodes'][n]['falsy'] = False
             yield new
         for j, (name, m) in enumerate(nd.get('meth', [])):
-            for field in ('alias', 'conf', 'tooldeco'):
+            for field in ('alias', 'conf', 'tooldeco', 'xform'):
                 if m.get(field):
                     new = copy.deepcopy(spec)
                     new['nodes'][n]['meth'][j][1].pop(field)
